@@ -9,6 +9,11 @@ lookup case = {"policy": "FIND_ALL"|"FIND_FIRST", "fs": null | [relative paths o
       (the content of every file is its own tag: "U<i>:<rel>" in user dir i, "P:<rel>" in the package)
 tests -> {"names": [...all DSDL test names...], "env_has": {lang: [names missing from env.tests]},
           "values": [{"cls": class name, "dt": class name | null, "res": {test name: bool}}]}   on real parsed pydsdl objects
+e2e case = {"lang": "c"|"py", "policy": "FIND_FIRST"|"FIND_ALL", "dirs": null | [[relative paths], ...]}   (user template dirs)
+  -> {"seq": [class name of every data type in generation order], "out": [outcome per generated type, up to and including the first
+      failure]}  outcome = "R:U<i>:<rel>" (marker found in the output file) | "R:P" (no marker: a built-in template) |
+      "T" (RuntimeError: no template) | "N:<name>" (TemplateNotFound).  FIND_FIRST runs the real DSDLCodeGenerator(namespace,
+      templates_dir=dirs).generate_all(); FIND_ALL a subclass whose constructor passes search_policy=FIND_ALL to CodeGenerator.__init__.
 env case = {"lang": str, "allow": bool, "globals": {name: int}, "filters": {name: int}, "tests": {name: int}, "dsdl": bool,
             "post": [["test"|"filter", name, int] ...]}
   -> {"err": "RuntimeError"|..., "at": "create"|"dsdl"|"post<i>"}  or
@@ -271,6 +276,65 @@ def run_env(work, cases):
     return out
 
 
+def run_e2e(work, cases):
+    from nunavut import build_namespace_tree
+    from nunavut.jinja import DSDLCodeGenerator, CodeGenerator
+    from nunavut._utilities import ResourceSearchPolicy, YesNoDefault
+    from nunavut.jinja.jinja2 import TemplateNotFound
+    from nunavut.lang import LanguageContextBuilder
+    types, root, _ = real_values(work)
+
+    class AllPolicyGenerator(DSDLCodeGenerator):
+        # DSDLCodeGenerator.__init__ with the policy as a parameter (it hard-wires FIND_FIRST); everything else is the real class
+        def __init__(self, namespace, policy, **kwargs):
+            CodeGenerator.__init__(self, namespace, search_policy=policy, **kwargs)
+            for test_name, test in self._create_all_dsdl_tests().items():
+                self._env.add_test(test_name, test)
+            self._env.add_conventional_methods_to_environment(self)
+
+    out = []
+    for n, c in enumerate(cases):
+        try:
+            dirs = None
+            if c['dirs'] is not None:
+                dirs = []
+                for i, names in enumerate(c['dirs']):
+                    dpath = os.path.join(work, 'e2e%d' % n, 'user%d' % i)
+                    os.makedirs(dpath, exist_ok=True)
+                    for rel in names:
+                        fpath = os.path.join(dpath, rel)
+                        os.makedirs(os.path.dirname(fpath), exist_ok=True)
+                        with open(fpath, 'w') as f:
+                            f.write('RENDERED:U%d:%s\n' % (i, rel))
+                    dirs.append(pathlib.Path(dpath))
+            lctx = LanguageContextBuilder(include_experimental_languages=True).set_target_language(c['lang']).create()
+            ns = build_namespace_tree(types, root, os.path.join(work, 'e2e%d' % n, 'out'), lctx)
+            # namespace files (py, html) would add lookups of nunavut.Namespace, a class outside the pydsdl forest of the model
+            kw = {'generate_namespace_types': YesNoDefault.NO}
+            if dirs is not None:
+                kw['templates_dir'] = dirs
+            g = DSDLCodeGenerator(ns, **kw) if c['policy'] == 'FIND_FIRST' else AllPolicyGenerator(ns, ResourceSearchPolicy.FIND_ALL, **kw)
+            todo = [(type(t).__name__, pathlib.Path(o)) for t, o in ns.get_all_datatypes()]
+            err = None
+            try:
+                g.generate_all(omit_serialization_support=True)
+            except TemplateNotFound as ex:
+                err = 'N:' + str(ex.name)
+            except RuntimeError as ex:
+                err = 'T' if 'No template found' in str(ex) else 'ERR:' + repr(ex)[:120]
+            outs = []
+            for _, o in todo:
+                if not o.exists():
+                    outs.append(err if err is not None else 'ERR:missing output')
+                    break
+                head = o.read_text().split('\n', 1)[0]
+                outs.append('R:' + head[len('RENDERED:'):].strip() if head.startswith('RENDERED:') else 'R:P')
+            out.append({'seq': [cn for cn, _ in todo][:len(outs)], 'out': outs})
+        except Exception as ex:  # noqa
+            out.append({'err': repr(ex)[:300]})
+    return out
+
+
 def main():
     doc = json.load(sys.stdin)
     work = doc['work']
@@ -282,6 +346,11 @@ def main():
             res['tests'] = run_tests(work)
         except Exception as ex:  # noqa
             res['tests'] = {'err': repr(ex)}
+    if doc.get('e2e') is not None:
+        try:
+            res['e2e'] = run_e2e(work, doc['e2e'])
+        except Exception as ex:  # noqa
+            res['e2e'] = [{'err': 'harness: ' + repr(ex)[:300]}] * len(doc['e2e'])
     if doc.get('env') is not None:
         try:
             res['env'] = run_env(work, doc['env'])
